@@ -52,6 +52,9 @@ CHECKS = {
  "C12": ("exploration", "runtime monitor: values built through the Go API printed by the real printer and read back by the real reader, structural equality walker; literal spellings from the documented grammar vs strconv/math/big",
          "Thousands of data values over every rune class, float magnitude and nesting are printed and read back ((read (str v)), (eval (read (str v))), source of a scratch file) and compared structurally; every literal spelling generated from the reader's own grammar in four contexts is evaluated and compared with the exact value; character and string literals of 278 runes are checked.",
          "Trusted: strconv/math/big; the literal grammar is transcribed from the reader's regular expressions; a float printing without fraction may read back as an equal int.", "DESIGN.md §4.C12"),
+ "C11": ("exploration", "runtime monitor: round trips through the real json/unjson and msgpack/unmsgpack builtins with a structural equality walker; the JSON bytes judged by encoding/json (validity and denotation)",
+         "Nested records, hashes, arrays and scalars with strings over every rune class and numbers at the 2^53 / 64-bit limits are built through the Go API, encoded and decoded by the real builtins and compared (numbers by value, type names, key order at every level); the emitted JSON text must be accepted by encoding/json and denote the same data; string-keyed hash literals are checked for well-formedness and denotation.",
+         "Trusted: encoding/json as the standard decoder; the structural walker.", "DESIGN.md §4.C11"),
 }
 
 NA_REASON = {}
